@@ -263,6 +263,7 @@ def run(ctx):
     for f, lp, nm in ((rz, lp_rz, "resize"), (sa, sizing[0], "setAlignment(sizing)"), (sa, lp_sa, "setAlignment(migration)")):
         tests = [n for n in walk(kids(lp)[0]) if n["k"] == "IfStmt" and strip(kids(n)[0])["k"] == "BinaryOperator" and strip(kids(n)[0]).get("op") in (">", "<", ">=", "<=")
                  and all(strip(x)["k"] == "DeclRefExpr" and strip(x).get("loc") for x in kids(strip(kids(n)[0])))]
+        tests = [t_ for t_ in tests if len(kids(t_)) >= 3] or tests     # the new-block test has an else branch (same block)
         if len(tests) != 1:
             raise AnalysisBroken("%s: the new-block test of the sweep was not found" % nm)
         t = strip(kids(tests[0])[0])
@@ -277,6 +278,18 @@ def run(ctx):
         for n in same:
             rhs = strip(kids(n)[1])
             mx = is_call(rhs) and callee(rhs).endswith("std::max") and any(strip(x)["k"] == "DeclRefExpr" and strip(x).get("d") == end["d"] for x in call_args(rhs))
+            if not mx and rhs["k"] == "DeclRefExpr":
+                # `if (mhi > hi) hi = mhi;` is the same maximum
+                for a_ in f.ancestors(n):
+                    if a_["i"] == lp["i"]:
+                        break
+                    if a_["k"] == "IfStmt" and len(kids(a_)) >= 2 and any(x["i"] == n["i"] for x in walk(kids(a_)[1])):
+                        c_ = strip(kids(a_)[0])
+                        if c_["k"] == "BinaryOperator" and c_.get("op") in (">", ">=", "<", "<="):
+                            l_, r_ = [strip(x) for x in kids(c_)]
+                            if l_["k"] == r_["k"] == "DeclRefExpr":
+                                big, small = (l_, r_) if c_["op"] in (">", ">=") else (r_, l_)
+                                mx = mx or (big.get("d") == rhs.get("d") and small.get("d") == end["d"])
             okm = okm and bool(mx)
         R.ob("C03-R6", okm, f.q, "sweep:%s: `%s` inside a block <- max(%s, ...)" % (nm, end.get("n", "end"), end.get("n", "end")), f.site(same[0]) if same else f.site(tests[0]),
              "the block end never moves backwards" if okm else
